@@ -229,6 +229,20 @@ def run(repo: Repo) -> Result:
                 vgs = {g1} if g1 is not None else set(var_groups[v.id])
             elif isinstance(v, ast.Call) and callee_name(v) == "join":
                 vgs = {"<joined-text>"}  # comment text assembled from several matches
+            elif isinstance(v, ast.Constant) and isinstance(v.value, str):
+                # a literal: fine where every path to this token has tested a group of the match
+                # for equality with exactly that text (sa/intsign.py: all paths of the iteration,
+                # nesting counters in a sign domain)
+                import re as _re
+
+                from ..intsign import facts_reaching
+
+                fr = facts_reaching(f.node, c)
+                vgs = set()
+                for ft, fo in fr or ():
+                    m_ = _re.fullmatch(r"\w+\.group\((['\"])(\w+)\1\) == (['\"])(.*)\3", ft)
+                    if fo and m_ and m_.group(4) == v.value:
+                        vgs.add(m_.group(2))
             else:
                 vgs = set()
             # start
